@@ -172,6 +172,82 @@ IntTextB(v) ==
     [] v.b = 4  -> <<50, 49, 52, 55, 52>> \o PadDigits(83648 + v.i, 5)                                              \* 21474|83648 + i
 
 -----------------------------------------------------------------------------
+\* Calendar (proleptic Gregorian; semantic checks run under TZ=UTC) and intervals.
+\* A TIMESTAMP is <<y, mo, d, h, mi, s, us>>; an INTERVAL a number of milliseconds (|ms| <= IvBound in the model).
+DaysIn(y, m) == IF m \in {1, 3, 5, 7, 8, 10, 12} THEN 31 ELSE IF m # 2 THEN 30
+                ELSE IF (y % 4 = 0 /\ y % 100 # 0) \/ y % 400 = 0 THEN 29 ELSE 28
+ValidDate(y, m, d) == y >= 1 /\ y <= 9999 /\ m >= 1 /\ m <= 12 /\ d >= 1 /\ d <= DaysIn(y, m)
+ValidTime(h, mi, s) == h >= 0 /\ h <= 23 /\ mi >= 0 /\ mi <= 59 /\ s >= 0 /\ s <= 59
+IvBound == 1000000000
+
+\* days since 1970-01-01 (\div is floor division for a positive divisor)
+DaysFromCivil(y, m, d) ==
+  LET y1  == IF m <= 2 THEN y - 1 ELSE y
+      era == y1 \div 400
+      yoe == y1 - era * 400
+      mp  == IF m > 2 THEN m - 3 ELSE m + 9
+      doy == (153 * mp + 2) \div 5 + d - 1
+      doe == yoe * 365 + yoe \div 4 - yoe \div 100 + doy
+  IN era * 146097 + doe - 719468
+CivilFromDays(z0) ==
+  LET z   == z0 + 719468
+      era == z \div 146097
+      doe == z - era * 146097
+      yoe == (doe - doe \div 1460 + doe \div 36524 - doe \div 146096) \div 365
+      doy == doe - (365 * yoe + yoe \div 4 - yoe \div 100)
+      mp  == (5 * doy + 2) \div 153
+      d   == doy - (153 * mp + 2) \div 5 + 1
+      m   == IF mp < 10 THEN mp + 3 ELSE mp - 9
+      y   == yoe + era * 400
+  IN <<IF m <= 2 THEN y + 1 ELSE y, m, d>>
+TsDays(ts) == DaysFromCivil(ts.f[1], ts.f[2], ts.f[3])
+DayMs(f) == ((f[4] * 60 + f[5]) * 60 + f[6]) * 1000 + f[7] \div 1000           \* milliseconds since midnight (< 86 400 000)
+
+\* timestamp + milliseconds (|ms| <= IvBound); XUnk when the year leaves 1..9999
+TsAddMs(ts, ms) ==
+  LET f  == ts.f
+      t  == DayMs(f) + ms
+      dd == t \div 86400000
+      r  == t - dd * 86400000
+      c  == CivilFromDays(TsDays(ts) + dd)
+      sc == r \div 1000
+  IN IF c[1] < 1 \/ c[1] > 9999 THEN XUnk
+     ELSE TsV(<<c[1], c[2], c[3], sc \div 3600, (sc \div 60) % 60, sc % 60, (r % 1000) * 1000 + (f[7] % 1000)>>)
+\* timestamp - timestamp as an interval; XUnk beyond 11 days or with sub-millisecond parts (the projection truncates)
+TsDiff(a, b) ==
+  LET dd == TsDays(a) - TsDays(b)
+  IN IF dd > 11 \/ dd < -11 \/ a.f[7] % 1000 # 0 \/ b.f[7] % 1000 # 0 THEN XUnk
+     ELSE IvV(dd * 86400000 + DayMs(a.f) - DayMs(b.f))
+
+Digits2(s, i) == IsDigit(s[i]) /\ IsDigit(s[i + 1])
+Num(s, i, n) == DigitsVal(SubSeq(s, i, i + n - 1), 0)
+ParseTs(s) ==      \* the strict "%Y-%m-%d %H:%M:%S" form with 4-digit year and 2-digit parts; other spellings: not modelled
+  IF Len(s) = 19 /\ (\A i \in {1, 2, 3, 4, 6, 7, 9, 10, 12, 13, 15, 16, 18, 19} : IsDigit(s[i]))
+     /\ s[5] = 45 /\ s[8] = 45 /\ s[11] = 32 /\ s[14] = 58 /\ s[17] = 58
+  THEN LET y == Num(s, 1, 4) m == Num(s, 6, 2) d == Num(s, 9, 2) h == Num(s, 12, 2) mi == Num(s, 15, 2) sc == Num(s, 18, 2)
+       IN IF ValidDate(y, m, d) /\ ValidTime(h, mi, sc) THEN TsV(<<y, m, d, h, mi, sc, 0>>)
+          ELSE IF sc = 60 THEN XUnk ELSE XNone
+  ELSE IF \E i \in 1..Len(s) : IsDigit(s[i]) THEN (IF \A i \in 1..Len(s) : IsDigit(s[i]) \/ s[i] \in {45, 32, 58} THEN XUnk ELSE XNone)
+  ELSE XNone
+
+RECURSIVE SplitOn(_, _, _)
+SplitOn(s, c, cur) == IF s = <<>> THEN <<cur>> ELSE IF Head(s) = c THEN <<cur>> \o SplitOn(Tail(s), c, <<>>) ELSE SplitOn(Tail(s), c, Append(cur, Head(s)))
+\* "h:m:s" (three i64 literals); totals beyond the model's range are XUnk (the code must still not crash on them: C09)
+ParseIv(s) ==
+  LET ps == SplitOn(s, 58, <<>>)
+  IN IF Len(ps) # 3 THEN XNone
+     ELSE LET h == ParseInt(ps[1]) m == ParseInt(ps[2]) sc == ParseInt(ps[3])
+          IN IF h.t = "none" \/ m.t = "none" \/ sc.t = "none" THEN XNone
+             ELSE IF h.t = "unk" \/ m.t = "unk" \/ sc.t = "unk" THEN XUnk
+             ELSE IF h.i > 200 \/ h.i < -200 \/ m.i > 10000 \/ m.i < -10000 \/ sc.i > 100000 \/ sc.i < -100000 THEN XUnk
+             ELSE IvV((h.i * 3600 + m.i * 60 + sc.i) * 1000)
+
+\* the Display form of timestamps and intervals (text / CSV records, ::text)
+Two2(n) == <<48 + (n \div 10), 48 + (n % 10)>>
+Three3(n) == <<48 + (n \div 100), 48 + ((n \div 10) % 10), 48 + (n % 10)>>
+Four4(n) == <<48 + (n \div 1000), 48 + ((n \div 100) % 10), 48 + ((n \div 10) % 10), 48 + (n % 10)>>
+
+-----------------------------------------------------------------------------
 LowerC(c) == IF c >= 65 /\ c <= 90 THEN c + 32 ELSE IF c = 201 THEN 233 ELSE c
 UpperC(c) == IF c >= 97 /\ c <= 122 THEN c - 32 ELSE IF c = 233 THEN 201 ELSE c
 SimpleCase(s) == \A i \in 1..Len(s) : s[i] < 128 \/ s[i] \in {201, 233}
@@ -197,8 +273,15 @@ Comparable(a, b) == \/ a.t = b.t /\ a.t # "arr"
                     \/ IsNum(a) /\ IsNum(b)
                     \/ a.t = "arr" /\ b.t = "arr" /\ a.et = b.et
 
+RECURSIVE Compare(_, _, _)
 Compare(f, a, b) ==
-  IF IsNull(a) \/ IsNull(b) THEN Val(BoolV(FALSE))
+  IF (a.t = "ts" /\ b.t = "text") \/ (a.t = "text" /\ b.t = "ts")
+  THEN \* a TEXT operand next to a TIMESTAMP is read as a timestamp literal; text that is none has no value
+       LET tx == IF a.t = "text" THEN a ELSE b
+           p  == ParseTs(tx.s)
+       IN IF p.t = "unk" THEN Unk ELSE IF p.t = "none" THEN Err
+          ELSE IF a.t = "text" THEN Compare(f, p, b) ELSE Compare(f, a, p)
+  ELSE IF IsNull(a) \/ IsNull(b) THEN Val(BoolV(FALSE))
   ELSE IF ~Comparable(a, b) THEN Unk
   ELSE IF "NumVariantOrder" \in Dev /\ a.t # b.t
        THEN \* as built: derived PartialEq / PartialOrd compare the variant first
@@ -219,8 +302,16 @@ ArithV(f, a, b) ==
          IF a.c # "fin" \/ b.c # "fin" \/ f = "/" THEN Unk
          ELSE LET r == CASE f = "+" -> RAdd(a, b) [] f = "-" -> RSub(a, b) [] f = "*" -> RMul(a, b)
               IN IF r.t = "unk" THEN Unk ELSE Val(r)
-  ELSE IF a.t = "iv" /\ b.t = "iv" /\ f \in {"+", "-"} THEN Val(IvV(IF f = "+" THEN a.ms + b.ms ELSE a.ms - b.ms))
-  ELSE IF {a.t, b.t} \subseteq {"ts", "iv"} THEN Unk        \* calendar arithmetic: not modelled
+  ELSE IF {a.t, b.t} \subseteq {"ts", "iv"} THEN
+         \* interval +- interval, timestamp +- interval, interval + timestamp, timestamp - timestamp; nothing else has a value
+         LET big(x) == x.t = "iv" /\ (x.ms > IvBound \/ x.ms < -IvBound)
+         IN IF big(a) \/ big(b) THEN Unk
+            ELSE IF a.t = "iv" /\ b.t = "iv" /\ f \in {"+", "-"} THEN Val(IvV(IF f = "+" THEN a.ms + b.ms ELSE a.ms - b.ms))
+            ELSE IF a.t = "ts" /\ b.t = "iv" /\ f \in {"+", "-"} THEN
+                   (LET r == TsAddMs(a, IF f = "+" THEN b.ms ELSE -b.ms) IN IF r.t = "unk" THEN Unk ELSE Val(r))
+            ELSE IF a.t = "iv" /\ b.t = "ts" /\ f = "+" THEN (LET r == TsAddMs(b, a.ms) IN IF r.t = "unk" THEN Unk ELSE Val(r))
+            ELSE IF a.t = "ts" /\ b.t = "ts" /\ f = "-" THEN (LET r == TsDiff(a, b) IN IF r.t = "unk" THEN Unk ELSE Val(r))
+            ELSE Err
   ELSE Err                                                  \* type mismatch
 
 \* the Display form used by ::text (and by the text / CSV printers)
@@ -236,6 +327,28 @@ TextOf(v) ==
          IN (IF neg THEN <<45>> ELSE <<>>) \o DigitsOf(ip) \o <<46>> \o <<48 + (fr \div 10), 48 + (fr % 10)>>
     [] OTHER -> NoText
 
+\* Display (src/model.rs): TEXT quoted, arrays in braces, timestamps %Y-%m-%d %H:%M:%S.%3f, intervals hh:mm:ss.mmm with the hours
+\* not wrapped at 24 (negative intervals are not modelled)
+Quote == <<39>>
+RECURSIVE Show(_), ShowSeq(_, _)
+Show(v) ==
+  CASE v.t = "null" -> <<78, 85, 76, 76>>
+    [] v.t = "iv" -> IF v.ms < 0 THEN NoText
+                     ELSE LET secs == v.ms \div 1000
+                              h == secs \div 3600
+                          IN (IF h < 100 THEN Two2(h) ELSE DigitsOf(h)) \o <<58>> \o Two2((secs \div 60) % 60) \o <<58>> \o Two2(secs % 60) \o <<46>> \o Three3(v.ms % 1000)
+    [] v.t = "ts" -> Four4(v.f[1]) \o <<45>> \o Two2(v.f[2]) \o <<45>> \o Two2(v.f[3]) \o <<32>> \o Two2(v.f[4]) \o <<58>> \o Two2(v.f[5]) \o <<58>> \o Two2(v.f[6])
+                     \o <<46>> \o Three3(v.f[7] \div 1000)
+    [] v.t = "text" -> Quote \o v.s \o Quote
+    [] v.t = "arr" -> LET b == ShowSeq(v.xs, TRUE) IN IF b = NoText THEN NoText ELSE <<123>> \o b \o <<125>>
+    [] OTHER -> TextOf(v)
+ShowSeq(xs, first) ==
+  IF xs = <<>> THEN <<>>
+  ELSE LET h == Show(Head(xs)) IN
+       IF h = NoText THEN NoText
+       ELSE LET r == ShowSeq(Tail(xs), FALSE) IN
+            IF r = NoText THEN NoText ELSE (IF first THEN <<>> ELSE <<44, 32>>) \o h \o r
+
 CastV(v, ty) ==
   IF v.t = "text" THEN
      CASE ty = "text" -> Val(v)
@@ -243,11 +356,90 @@ CastV(v, ty) ==
        [] ty = "real" -> LET r == ParseReal(v.s) IN IF r.t = "unk" THEN Unk ELSE IF r.t = "none" THEN Err ELSE Val(r)
        [] ty = "boolean" -> IF v.s = <<116, 114, 117, 101>> THEN Val(BoolV(TRUE))
                             ELSE IF v.s = <<102, 97, 108, 115, 101>> THEN Val(BoolV(FALSE)) ELSE Err
+       [] ty = "timestamp" -> LET r == ParseTs(v.s) IN IF r.t = "unk" THEN Unk ELSE IF r.t = "none" THEN Err ELSE Val(r)
+       [] ty = "interval" -> LET r == ParseIv(v.s) IN IF r.t = "unk" THEN Unk ELSE IF r.t = "none" THEN Err ELSE Val(r)
        [] OTHER -> Unk
   ELSE IF IsNull(v) THEN Unk
-  ELSE IF (ty = "int" /\ v.t = "int") \/ (ty = "real" /\ v.t = "real") \/ (ty = "boolean" /\ v.t = "bool") THEN Val(v)
-  ELSE IF ty = "text" THEN (LET s == TextOf(v) IN IF s = NoText THEN Unk ELSE Val(TextV(s)))
+  ELSE IF (ty = "int" /\ v.t = "int") \/ (ty = "real" /\ v.t = "real") \/ (ty = "boolean" /\ v.t = "bool")
+          \/ (ty = "timestamp" /\ v.t = "ts") \/ (ty = "interval" /\ v.t = "iv") THEN Val(v)
+  ELSE IF v.t = "iv" /\ ty = "int" THEN Val(IntV(TruncDiv(v.ms, 1000)))                       \* whole seconds, towards zero
+  ELSE IF v.t = "iv" /\ ty = "real" THEN (IF v.ms % 125 = 0 THEN (LET r == RealRes(v.ms \div 125, 8) IN IF r.t = "unk" THEN Unk ELSE Val(r)) ELSE Unk)
+  ELSE IF ty = "text" THEN (LET s == Show(v) IN IF s = NoText THEN Unk ELSE Val(TextV(s)))
   ELSE Unk
+
+RECURSIVE ISqrt(_, _)
+ISqrt(n, r) == IF r * r >= n THEN r ELSE ISqrt(n, r + 1)
+PerfectSquare(n) == n >= 0 /\ ISqrt(n, 0) * ISqrt(n, 0) = n
+
+\* pow(INT, INT): checked_pow with the exponent converted to u32
+RECURSIVE BitLen(_)
+BitLen(n) == IF n = 0 THEN 0 ELSE 1 + BitLen(n \div 2)
+AbsI(n) == IF n < 0 THEN -n ELSE n
+IPow(x, y) ==
+  IF y.b \in {1, -1, 3} THEN XNone                                   \* negative or beyond u32: no value
+  ELSE IF y.b # 0 \/ Large(x) \/ Large(y) THEN XUnk
+  ELSE IF y.i < 0 THEN XNone
+  ELSE IF y.i = 0 THEN IntV(1)
+  ELSE IF y.i = 1 THEN x
+  ELSE IF x.b \in {1, -1} THEN XOvf
+  ELSE IF x.b # 0 THEN XUnk
+  ELSE IF x.i \in {0, 1} THEN x
+  ELSE IF x.i = -1 THEN IntV(IF y.i % 2 = 0 THEN 1 ELSE -1)
+  ELSE IF x.i = -2 /\ y.i = 63 THEN MinV(0)
+  ELSE IF (BitLen(AbsI(x.i)) - 1) * y.i >= 63 THEN XOvf                \* |x|^y >= 2^63
+  ELSE IF BitLen(AbsI(x.i)) * y.i <= 19 THEN IntV(Pow(x.i, y.i))       \* |x|^y < 2^19
+  ELSE XUnk
+\* pow(REAL, REAL) for a dyadic base and a small whole exponent (exact in f64); everything else is left to the floating-point library
+RECURSIVE RPow(_, _)
+RPow(x, k) == IF k = 0 THEN RealV(1, 1) ELSE LET r == RPow(x, k - 1) IN IF r.t = "unk" THEN r ELSE RMul(r, x)
+
+\* regular expressions: only patterns made of letters, digits and blanks with an optional ^ in front and $ at the end are given a meaning
+PlainPat(p) == \A i \in 1..Len(p) : (p[i] >= 97 /\ p[i] <= 122) \/ (p[i] >= 48 /\ p[i] <= 57) \/ p[i] = 32
+PatMatch(s, p0) ==
+  LET front == p0 # <<>> /\ Head(p0) = 94
+      p1 == IF front THEN Tail(p0) ELSE p0
+      back == p1 # <<>> /\ p1[Len(p1)] = 36
+      p == IF back THEN SubSeq(p1, 1, Len(p1) - 1) ELSE p1
+      n == Len(p)
+      at(i) == i + n <= Len(s) /\ SubSeq(s, i + 1, i + n) = p
+  IN IF ~PlainPat(p) THEN XUnk
+     ELSE BoolV(IF front /\ back THEN s = p ELSE IF front THEN at(0) ELSE IF back THEN (Len(s) >= n /\ at(Len(s) - n)) ELSE \E i \in 0..Len(s) : at(i))
+
+\* date_trunc: the named part and everything below it is reset
+TruncParts == <<"year", "month", "day", "hour", "minute", "second", "milliseconds", "microseconds">>
+AsciiText(str) == CASE str = "year" -> <<121, 101, 97, 114>> [] str = "month" -> <<109, 111, 110, 116, 104>> [] str = "day" -> <<100, 97, 121>>
+                    [] str = "hour" -> <<104, 111, 117, 114>> [] str = "minute" -> <<109, 105, 110, 117, 116, 101>> [] str = "second" -> <<115, 101, 99, 111, 110, 100>>
+                    [] str = "milliseconds" -> <<109, 105, 108, 108, 105, 115, 101, 99, 111, 110, 100, 115>>
+                    [] str = "microseconds" -> <<109, 105, 99, 114, 111, 115, 101, 99, 111, 110, 100, 115>>
+TruncTs(part, ts) ==
+  LET f == ts.f
+      k == IF \E i \in 1..8 : AsciiText(TruncParts[i]) = part THEN CHOOSE i \in 1..8 : AsciiText(TruncParts[i]) = part ELSE 0
+  IN IF k = 0 THEN XNone
+     ELSE IF k >= 4 /\ (f[1] < 1678 \/ f[1] > 2261) THEN XUnk          \* sub-day truncation goes through i64 nanoseconds since 1970
+     ELSE TsV(CASE k = 1 -> <<f[1], 1, 1, 0, 0, 0, 0>> [] k = 2 -> <<f[1], f[2], 1, 0, 0, 0, 0>> [] k = 3 -> <<f[1], f[2], f[3], 0, 0, 0, 0>>
+                [] k = 4 -> <<f[1], f[2], f[3], f[4], 0, 0, 0>> [] k = 5 -> <<f[1], f[2], f[3], f[4], f[5], 0, 0>>
+                [] k = 6 -> <<f[1], f[2], f[3], f[4], f[5], f[6], 0>> [] k = 7 -> <<f[1], f[2], f[3], f[4], f[5], f[6], f[7] - (f[7] % 1000)>>
+                [] k = 8 -> f)
+
+\* make_timestamp(year, month, day, hour, minute, second, microsecond): a date that does not exist is NULL (as built; the property
+\* only demands that no part is wrapped around or otherwise altered)
+MakeTs(a) ==
+  IF \E i \in 1..7 : IsNull(a[i]) THEN Unk
+  ELSE IF \E i \in 1..7 : a[i].t # "int" THEN Err
+  ELSE IF \E i \in 2..7 : a[i].b # 0 THEN Val(Null)                       \* beyond u32 or negative: not a date part
+  ELSE IF a[1].b \in {1, -1, 3, 2} THEN Val(Null)                         \* beyond i32
+  ELSE IF a[1].b # 0 THEN Unk
+  ELSE LET y == a[1].i m == a[2].i d == a[3].i h == a[4].i mi == a[5].i sc == a[6].i us == a[7].i
+       IN IF m < 1 \/ m > 12 \/ d < 1 \/ d > 31 \/ ~ValidTime(h, mi, sc) \/ us < 0 THEN Val(Null)
+          ELSE IF us >= 1000000 THEN (IF sc = 59 /\ us < 2000000 THEN Unk ELSE Val(Null))        \* leap-second encoding: not modelled
+          ELSE IF y < 1 \/ y > 9999 THEN (IF y > 262142 \/ y < -262143 THEN Val(Null) ELSE Unk)
+          ELSE IF d > DaysIn(y, m) THEN Val(Null)
+          ELSE Val(TsV(<<y, m, d, h, mi, sc, us>>))
+
+\* EXTRACT(EPOCH ...): seconds since 1970-01-01 as a REAL (whole seconds within the model's integer range)
+EpochOf(ts) ==
+  IF ts.f[1] < 1902 \/ ts.f[1] > 2037 \/ ts.f[7] # 0 THEN XUnk
+  ELSE RealV(TsDays(ts) * 86400 + (ts.f[4] * 60 + ts.f[5]) * 60 + ts.f[6], 1)
 
 Truth(v) == v.t = "bool" /\ v.v          \* Value::bool(): anything that is not TRUE counts as false
 
@@ -267,6 +459,15 @@ Call1(f, a) ==
     [] f = "lower" -> IF a.t = "text" THEN (IF SimpleCase(a.s) THEN Val(TextV([i \in 1..Len(a.s) |-> LowerC(a.s[i])])) ELSE Unk) ELSE Err
     [] f = "array_length" -> IF a.t = "arr" THEN Val(IntV(Len(a.xs))) ELSE Err
     [] f = "array_unique" -> IF a.t = "arr" THEN Val(ArrV(a.et, SortUnique(a.xs, <<>>))) ELSE Err
+    [] f = "sqrt" ->
+         IF IsNull(a) THEN Val(Null)
+         ELSE IF a.t # "real" THEN Err
+         ELSE IF a.c = "fin" THEN (IF a.n < 0 THEN Val(NaN)
+                                   ELSE IF PerfectSquare(a.n) /\ PerfectSquare(a.d) THEN Val(RealV(ISqrt(a.n, 0), ISqrt(a.d, 0))) ELSE Unk)
+         ELSE IF a.c \in {"nzero", "pinf", "nan"} THEN Val(a)
+         ELSE IF a.c \in {"ninf", "n63"} THEN Val(NaN)
+         ELSE Unk
+    [] f = "extract_epoch" -> IF a.t = "ts" THEN (LET r == EpochOf(a) IN IF r.t = "unk" THEN Unk ELSE Val(r)) ELSE Err
     [] f \in {"extract_year", "extract_month", "extract_day", "extract_hour", "extract_minute", "extract_second"} ->
          IF a.t = "ts" THEN Val(IntV(a.f[CASE f = "extract_year" -> 1 [] f = "extract_month" -> 2 [] f = "extract_day" -> 3
                                             [] f = "extract_hour" -> 4 [] f = "extract_minute" -> 5 [] f = "extract_second" -> 6]))
@@ -279,6 +480,24 @@ Call2(f, a, b) ==
          ELSE IF a.t # b.t \/ a.t \notin {"int", "real", "ts", "iv"} THEN Err
          ELSE IF a.t = "real" /\ (a.c \in {"nan", "nzero"} \/ b.c \in {"nan", "nzero"}) THEN Unk
          ELSE LET c == Cmp(a, b) IN Val(IF (f = "least") = (c <= 0) THEN a ELSE b)
+    [] f = "pow" ->
+         IF IsNull(a) \/ IsNull(b) THEN Val(Null)
+         ELSE IF a.t = "int" /\ b.t = "int" THEN
+                (LET r == IPow(a, b) IN IF r.t = "unk" THEN Unk ELSE IF r.t = "none" THEN Err
+                                         ELSE IF r.t = "ovf" THEN (IF "UncheckedArith" \in Dev THEN Panic ELSE Err) ELSE Val(r))
+         ELSE IF a.t = "real" /\ b.t = "real" THEN
+                (IF a.c = "fin" /\ b.c = "fin" /\ b.d = 1 /\ b.n >= 0 /\ b.n <= 4
+                 THEN (LET r == RPow(a, b.n) IN IF r.t = "unk" \/ (r.t = "real" /\ r.c # "fin") THEN Unk ELSE Val(r)) ELSE Unk)
+         ELSE Err
+    [] f = "regex_matches" ->
+         IF b.t # "text" THEN (IF IsNull(b) THEN Unk ELSE Err)
+         ELSE IF IsNull(a) THEN (IF PatMatch(<<>>, b.s).t # "unk" THEN Val(BoolV(FALSE)) ELSE Unk)
+         ELSE IF a.t # "text" THEN Err
+         ELSE (LET r == PatMatch(a.s, b.s) IN IF r.t = "unk" THEN Unk ELSE Val(r))
+    [] f = "date_trunc" ->
+         IF IsNull(a) \/ IsNull(b) THEN Unk
+         ELSE IF a.t # "text" \/ b.t # "ts" THEN Err
+         ELSE (LET r == TruncTs(a.s, b) IN IF r.t = "unk" THEN Unk ELSE IF r.t = "none" THEN Err ELSE Val(r))
     [] f = "array_cat" -> IF a.t = "arr" /\ b.t = "arr" /\ a.et = b.et THEN Val(ArrV(a.et, a.xs \o b.xs)) ELSE Err
     [] f = "array_append" -> IF a.t = "arr" /\ ElemTypeOf(b) = a.et /\ b.t # "arr" THEN Val(ArrV(a.et, Append(a.xs, b)))
                              ELSE IF a.t = "arr" /\ b.t = "arr" THEN Unk ELSE Err
@@ -375,6 +594,7 @@ Eval(e, env) ==
             ELSE IF e.f = "array" THEN CreateArray([i \in 1..Len(os) |-> os[i].v])
             ELSE IF Len(os) = 1 THEN Call1(e.f, os[1].v)
             ELSE IF Len(os) = 2 THEN Call2(e.f, os[1].v, os[2].v)
+            ELSE IF Len(os) = 7 /\ e.f = "make_timestamp" THEN MakeTs([i \in 1..7 |-> os[i].v])
             ELSE Unk
     [] e.op = "idx" ->
          LET a == Eval(e.a, env) IN IF a.k # "val" THEN a ELSE
